@@ -1503,6 +1503,9 @@ func makeTaskForMesosResources(
 	resourcesRequest := make(mesos.Resources, 0)
 	resourcesRequest.Add1(resources.NewCPUs(wants.Cpu).Resource)
 	resourcesRequest.Add1(resources.NewMemory(wants.Memory).Resource)
+
+	// The CPU and memory this task asks for are no longer available to the next task matched to the same offer
+	remainingResourcesInOffer.Subtract(resources.NewCPUs(wants.Cpu).Resource, resources.NewMemory(wants.Memory).Resource)
 	portsBuilder := resources.BuildRanges()
 	for _, rng := range wants.StaticPorts {
 		portsBuilder = portsBuilder.Span(rng.Begin, rng.End)
